@@ -1,6 +1,7 @@
 (* C15 — malformed stores and peer files are refused or skipped, never crash or pass. *)
 Require Import Base Extracted Criteria Validate.
 Require Import ValidateProofs.
+Require Import Imports LockSync ValidateLock LockSyncProofs.
 Local Open Scope N_scope.
 
 (* a reference to an undefined criterion at any site validate checks is refused ... *)
@@ -44,6 +45,21 @@ Theorem C15_wildcard_end_cap : forall locked shadows t max_end ends r ps e,
   load_outcome locked shadows t max_end ends r ps <> Refused -> In e ends -> (e <= max_end)%Z.
 Proof. exact wildcard_end_cap. Qed.
 
+(* the same with the lock-freshness test of a locked load included (LockSync.v, model of Store::imports_lock_outdated: it
+   looks the section of every configured import up by name and unwraps): the test compares the import NAMES of config.toml
+   and imports.lock first — a fact re-read from the source on every run — so the lookup cannot fail, and the load as a whole
+   still never crashes *)
+Theorem C15_no_crash_with_lock_test : forall locked shadows t max_end ends r ps cfg lock,
+  load_outcome_lock locked shadows t max_end ends r ps cfg lock <> Panics.
+Proof. exact load_never_crashes. Qed.
+Theorem C15_lock_test_never_panics : forall live cfg lock, lock_outdated live cfg lock <> LPanic.
+Proof. exact lock_outdated_never_panics. Qed.
+(* non-vacuity: a renamed import (as many sections as imports, other names) is refused, not looked up *)
+Example C15_renamed_import_refused :
+  lock_outdated false [ {| ic_name := 0; ic_exclude := [] |} ] [ {| ls_name := 1; ls_audit_crates := [5]; ls_wild_crates := [] |} ] = LOutdated /\
+  lock_outdated false [ {| ic_name := 0; ic_exclude := [4] |} ] [ {| ls_name := 0; ls_audit_crates := [5]; ls_wild_crates := [] |} ] = LInSync.
+Proof. vm_compute. auto. Qed.
+
 Example C15_nonvacuous :
   load_outcome true false [[1]] 100%Z [50%Z] [(SAudit, [2; 0]); (SLockAudit, [1])] [] = Proceeds /\
   load_outcome true false [[1]] 100%Z [50%Z] [(SAudit, [2; 0]); (SLockAudit, [7])] [] = Refused /\
@@ -57,3 +73,5 @@ Print Assumptions C15_no_crash.
 Print Assumptions C15_self_implication_refused.
 Print Assumptions C15_too_many_criteria_refused.
 Print Assumptions C15_wildcard_end_cap.
+Print Assumptions C15_no_crash_with_lock_test.
+Print Assumptions C15_lock_test_never_panics.
